@@ -50,7 +50,8 @@ TEXT = {
              'shows the dependence on the exit order (regenerated). Known finding F10 (nested guards = premise of the theorem).',
         note=TRUST + 'The protocol model is tied to the thread-level model by runtime lockstep, not by a proof.'),
     'C05': dict(technique=TH,
-        text='c05_unique / c05_in_range / c05_stable over the IDManager model: any capacity, any number of threads, any probe start, every interleaving of load/exchange/exit steps.',
+        text='c05_unique / c05_in_range / c05_stable over the IDManager model: any capacity, any number of threads, any probe start, every interleaving of load/exchange/exit steps. '
+             'Outside the model (tested, not proved): a static-initialisation probe built without the shim checks that an ID obtained inside a global constructor stays reserved.',
         note=TRUST),
     'C06': dict(technique=ZP,
         text='c06_inverse_cdf (= search_spec): for any strict total order and any monotone table the search returns the least index whose entry is >= the variate; c06_in_range; c06_one_bin; c06_switch. '
